@@ -409,13 +409,12 @@ def r05_7_setters(chk):
                             f"later depends on what the attribute held when it was first read", m.where, nontrivial=False)
     chk.floor("Attribute property getters", n_getters, 8)
     # the emitters str()-ify only str values: enum members are turned into their value by the converters
-    mk = ix.get_class("ValidatorEnum").lookup("make_converter")
-    conv = [f for f in ix.functions.values() if f.parent is mk]
-    if len(conv) != 1:
-        raise AnalysisError("ValidatorEnum.make_converter: expected exactly one nested converter function")
-    cs = chk.summary(conv[0])
-    v = ("param", conv[0].param_names[0])
-    member = ("call", ("global", "isinstance"), (v, ("free", "cls")), ())
+    from ..common import enum_converter
+    conv_f, v, cls_t = enum_converter(ix, chk.terms)
+    conv = [conv_f]
+    # (helpers of the enum class the converter is split into are looked through)
+    cs = chk.terms.inline(conv_f, 2, stop=lambda g: g.cls is None or g.cls.name != "ValidatorEnum")
+    member = ("call", ("global", "isinstance"), (v, cls_t), ())
     alts = return_alternatives(cs)
     as_value = [c for c, t in alts if t == A(v, "value") and member in c]
     raw_member = [c for c, t in alts if t == v and member in c]
